@@ -331,6 +331,16 @@ def replay_roca():
     cands.append(rng.getrandbits(512) | 1)
     r = rng.randrange(2, M)
     cands.append(r * r % M + M * rng.randrange(2**100))
+  # structured modulo all primes but one, where the residue is forced to a
+  # value of its own (0, or a residue outside the subgroup generated by 65537)
+  base = pow(65537, 12345, M)
+  for p_ in expect39:
+    others = M // p_
+    sub = {pow(65537, k, p_) for k in range(p_)}
+    for target in [0] + [r_ for r_ in range(1, p_) if r_ not in sub][:1]:
+      # n = base (mod M/p_), n = target (mod p_)
+      t = (target - base) * pow(others, -1, p_) % p_
+      cands.append(base + others * t + M * rng.randrange(1, 2**64))
   P48 = expect39[1:] + [179, 181, 191, 193, 197, 199, 211, 223, 227, 229]
   for n in cands:
     w1 = all(any(pow(65537, k, p_) == n % p_ for k in range(p_))
